@@ -28,6 +28,16 @@ func (r Rng) Scenario(maxMsgs int) pairScenario {
 		if l == "" || strings.HasPrefix(l, "[") {
 			l = "Welcome"
 		}
+		// banner lines in the style of RMS gateways: text that starts with asterisks (such a line
+		// is NOT an error report while the handshake is read)
+		switch r.Intn(6) {
+		case 0:
+			l = "*** " + l
+		case 1:
+			l = "* " + l + " *"
+		case 2:
+			l = []string{"***", "*", "** *", "*** MTD Stats Total connects = 2580 Total messages = 3900"}[r.Intn(4)]
+		}
 		if ca.Master {
 			ca.Motd = append(ca.Motd, l)
 		} else {
